@@ -57,12 +57,13 @@ def app_callbacks(rp, tm, extra, seen):
     return keep
 
 
-def run_history(rp, tasks, batches, extra=None):
-    """real TaskManager._update_tasks on real Task objects"""
+def run_history(rp, tasks, batches, extra=None, pilot_dies=None):
+    """real TaskManager._update_tasks on real Task objects; with `pilot_dies` (a final pilot state) all tasks are bound
+    to one pilot which ends in that state after the last batch (real TaskManager._pilot_state_cb)"""
     tm  = stubs.make_tmgr(rp)
     cbs = []
     for t in tasks:
-        stubs.make_task(rp, tm, 'task.%06d' % t['uid'], t['state'])
+        stubs.make_task(rp, tm, 'task.%06d' % t['uid'], t['state'], pilot='pilot.0000' if pilot_dies else None)
     tm._callbacks[rp.constants.TASK_STATE]['*'] = {
         'rec': {'cb': lambda task, state: cbs.append([int(task.uid.split('.')[1]), state]),
                 'cb_data': None}}
@@ -78,6 +79,14 @@ def run_history(rp, tasks, batches, extra=None):
             errs.append(exc_name(e))
     out_tasks = [{'uid': t['uid'], 'state': tm._tasks['task.%06d' % t['uid']].state,
                   'pilot': None, 'detail': None} for t in tasks]
+    if pilot_dies:
+        from props import c13
+        try:
+            tm._pilot_state_cb(c13.PilotStub(0, pilot_dies))
+        except Exception as e:
+            errs.append(exc_name(e))
+        after = [tm._tasks['task.%06d' % t['uid']].state for t in tasks]
+        return {'tasks': out_tasks, 'cbs': cbs, 'after_pilot_end': after}, errs
     return {'tasks': out_tasks, 'cbs': cbs}, errs
 
 
@@ -227,6 +236,20 @@ def run(ctx):
                          % (extra, res3['cbs'], errs3, res['cbs']),
                          {'tasks': tasks, 'batches': batches, 'extra': extra}, observed=res3, expected=res)
                 continue
+        # once final, always that final state - also when the pilot of the task ends afterwards (the task manager
+        # then fails what is left of that pilot's tasks through Task._update, not through a notification)
+        if ctx.rng.random() < 0.35:
+            ps = ctx.rng.choice(['FAILED', 'CANCELED', 'DONE'])
+            res4, errs4 = run_history(rp, tasks, batches, pilot_dies=ps)
+            kinds['with_pilot_ending'] = kinds.get('with_pilot_ending', 0) + 1
+            FINAL = rp.states.FINAL
+            for t, after in zip(res4['tasks'], res4['after_pilot_end']):
+                want = t['state'] if t['state'] in FINAL else 'FAILED'
+                if after != want or errs4:
+                    ctx.fail('final-state-left-when-the-pilot-ended' if t['state'] in FINAL else 'task-of-dead-pilot-not-failed',
+                             'task %d was %s; after its pilot ended %s it is %s %s' % (t['uid'], t['state'], ps, after, errs4),
+                             {'tasks': tasks, 'batches': batches, 'pilot_dies': ps}, observed=res4)
+                    break
         # batch independence on the real code: drop one dict, others unchanged
         if batches and ctx.rng.random() < 0.5:
             bi = ctx.rng.randrange(len(batches))
@@ -271,6 +294,11 @@ def replay(ctx, data):
     res, errs = run_history(rp, inp['tasks'], inp['batches'])
     bad = monitor(rp, inp['tasks'], inp['batches'], res, errs)
     print('observed:', res, errs, bad)
+    if not bad and 'pilot_dies' in inp:
+        res4, errs4 = run_history(rp, inp['tasks'], inp['batches'], pilot_dies=inp['pilot_dies'])
+        FINAL = rp.states.FINAL
+        print('after the pilot ended %s:' % inp['pilot_dies'], res4['after_pilot_end'], errs4)
+        return not errs4 and all(a == (t['state'] if t['state'] in FINAL else 'FAILED') for t, a in zip(res4['tasks'], res4['after_pilot_end']))
     if not bad and 'extra' in inp:
         res3, errs3 = run_history(rp, inp['tasks'], inp['batches'], inp['extra'])
         print('with application callbacks %s:' % inp['extra'], res3, errs3)
